@@ -8,6 +8,7 @@ package main
 
 import (
 	"fmt"
+	"os"
 	"go/ast"
 	"go/token"
 	"go/types"
@@ -104,9 +105,6 @@ func ruleIntsGuard(c *Ctx, short string, rule string) {
 				}
 			}
 		}
-		if len(roots) == 0 {
-			continue
-		}
 		storage := ""
 		for _, e := range m.Path {
 			if e.Kind == "if" {
@@ -129,7 +127,12 @@ func ruleIntsGuard(c *Ctx, short string, rule string) {
 			}
 			r := di.rootOf(info, idx, 0)
 			if r == nil || !roots[r] {
-				return true
+				// a local that describes a variable chosen by user code (the result of a function that resolves
+				// an expression to a place): its class is as unknown as a parameter's
+				r = di.nearRoot(info, idx, 0)
+				if r == nil || !userPlaceLocal(info, di, r) {
+					return true
+				}
 			}
 			nd := needs[m.FD]
 			if nd == nil {
@@ -244,4 +247,44 @@ func ruleIntsGuard(c *Ctx, short string, rule string) {
 		ok, why := proven(fd, 0)
 		c.Ob(rule, nd.fkey, nd.firstPos, ok, fmt.Sprintf("%d unboxed slot accesses outside any in-function IntBind arm: %s", nd.unguard, why))
 	}
+}
+
+// userPlaceFuncs are the functions of package fast that resolve an expression written by the user to a
+// variable or place: the class of what they return is arbitrary (frozen after reading every function of
+// package fast that returns *Place, *Var, *Symbol or *Bind: the others declare a new variable).
+var userPlaceFuncs = map[string]bool{
+	"fast.Comp.rangeVars": true, "fast.Comp.Place": true, "fast.Comp.placeOrAddress": true, "fast.Comp.LookupVar": true,
+	"fast.Comp.Resolve": true, "fast.Comp.TryResolve": true, "fast.Comp.tryResolve": true, "fast.Comp.IdentPlace": true,
+	"fast.Import.selectorPlace": true, "fast.Comp.IndexPlace": true, "fast.Comp.SelectorPlace": true,
+}
+
+func userPlaceLocal(info *types.Info, di *defIndex, o types.Object) bool {
+	v, ok := o.(*types.Var)
+	if !ok || v.IsField() {
+		return false
+	}
+	is := false
+	for _, tn := range []string{"Var", "Symbol", "Bind", "Place"} {
+		if isNamedType(o.Type(), "fast", tn) {
+			is = true
+		}
+	}
+	if !is {
+		return false
+	}
+	for _, d := range di.defs[o] {
+		call, ok := unparen(d).(*ast.CallExpr)
+		if !ok {
+			continue
+		}
+		if fn := calleeOf(info, call); fn != nil {
+			if os.Getenv("VERIF_EXPLORE") != "" {
+				fmt.Println("EXPLORE userplace", o.Name(), funcFullName(fn))
+			}
+			if userPlaceFuncs[funcFullName(fn)] {
+				return true
+			}
+		}
+	}
+	return false
 }
